@@ -200,6 +200,9 @@ def _check_listing(case):
     return 3, "ok", (hdr, rows, uv), []
 
 
+LONG_N = (16, 17, 100, 256, 257, 300, 1000)  # the size axis: lengths around block sizes and CPython's small-int cache
+
+
 def parts(tier):
     quick = tier == "quick"
     maxn = 5 if quick else 6
@@ -213,7 +216,7 @@ def parts(tier):
                     continue
                 seen.add(seq)
                 yield seq
-        for n in (7, 8, 9, 12, 15):
+        for n in (7, 8, 9, 12, 15) + LONG_N:
             yield tuple((i * 7) % 5 + (0.5 if i % 3 == 0 else 0) for i in range(n))
             yield tuple(3 for _ in range(n))
 
@@ -222,11 +225,15 @@ def parts(tier):
             for seq in itertools.product((1, 2, 2.5, 7), repeat=n):
                 if len(set(seq)) > 1:
                     yield seq
+        for n in LONG_N:  # the size axis
+            yield tuple((1, 2, 2.5, 7)[(i * 7) % 4] for i in range(n))
 
     def gen_pitch():
         for n in range(0, 5):
             for seq in itertools.product((0, 0.0, 0.5, 100, 120.5, -3), repeat=n):
                 yield seq
+        for n in LONG_N:  # the size axis: long tracks with unvoiced stretches
+            yield tuple((0, 100, 120.5, 0.5, 0, 0, 98.25)[(i * 5) % 7] for i in range(n))
         # constant runs and near-constant runs of non-dyadic floats (where a one-pass variance cancels catastrophically)
         for v in (0.1, 201.7, 123.4, 220.3, 1e-05, 98.61948118117667, 1234.5678):
             for n in range(1, 8):
@@ -240,6 +247,8 @@ def parts(tier):
         for n in range(0, 5):
             for seq in itertools.product((50, 75.5, 100, 140, 200), repeat=n):
                 yield seq
+        for n in LONG_N:  # the size axis
+            yield tuple((50, 75.5, 100, 140, 200, 101, 99)[(i * 3) % 7] for i in range(n))
 
     def gen_listing():
         for hdr in (True, False):
@@ -249,6 +258,10 @@ def parts(tier):
                         continue
                     for uv in (None, 0, -1.5):
                         yield (hdr, rows, uv)
+        for n in LONG_N:  # the size axis: long listings
+            for hdr in (True, False):
+                for uv in (None, 0):
+                    yield (hdr, tuple(ROWS[(i * 3) % len(ROWS)] for i in range(n)), uv)
         # empty lines (which the loader ignores) before, between and after the header and the rows
         for hdr in (True, False):
             for k in (1, 2):
